@@ -82,7 +82,7 @@ fn rg_json(t: &mut Tape) -> Vec<u8> {
 
 fn gen_scenario(t: &mut Tape) -> Scenario {
     let other_parents: [&[&str]; 5] = [&["git", "show"], &["git", "blame", "zz.py"], &["rg", "bar"], &["git", "verif-neutral"], &["git", "log", "-p"]];
-    match t.weighted(&[2, 2, 2, 2, 2, 4, 3, 3, 3]) {
+    match t.weighted(&[2, 2, 2, 2, 2, 4, 3, 3, 3, 3]) {
         0 => Scenario { name: "guess:git-grep", parent: sv(&["git", "grep", "foo"]), launched: vec![], content: grep_lines(t), opts: vec![] },
         1 => Scenario { name: "guess:rg", parent: sv(&["rg", "foo"]), launched: vec![], content: grep_lines(t), opts: vec![] },
         2 => Scenario { name: "guess:git-blame", parent: sv(&["git", "blame", "src/x.rs"]), launched: vec![], content: blame_lines(t), opts: vec![] },
@@ -95,6 +95,15 @@ fn gen_scenario(t: &mut Tape) -> Scenario {
             // caller (side-by-side and line numbers are switched off for word diffs)
             let o = t.ps(&["--side-by-side", "--line-numbers", "--side-by-side --line-numbers"]).split(' ').map(|s| s.to_string()).collect();
             Scenario { name: "known:delta-git-diff-word-diff", parent: sv(other_parents[t.below(other_parents.len())]), launched: sv(&["git", "diff", "--word-diff=color"]), content: word_diff(t), opts: o }
+        }
+        9 => {
+            // a launched git command that delta does not parse (nothing is published for it):
+            // the queries must still be answered - by whatever the background thread finds - under
+            // every schedule
+            let l = *t.pick(&[&["git", "diff-tree", "-p", "HEAD"][..], &["git", "format-patch", "--stdout", "-1"], &["git", "stash", "show", "-p"], &["git", "range-diff", "a...b"]]);
+            let a = text::ident(t);
+            let content = format!("diff --git a/f.rs b/f.rs\nindex 1..2 100644\n--- a/f.rs\n+++ b/f.rs\n@@ -1,3 +1,3 @@ fn {}()\n let {} = 1;\n-gone {}\n+here {}\n", a, text::ident(t), text::ident(t), text::ident(t)).into_bytes();
+            Scenario { name: "known:delta-git-unparsed-subcommand", parent: sv(other_parents[t.below(other_parents.len())]), launched: sv(l), content, opts: vec![] }
         }
         _ => Scenario { name: "known:delta-git-blame", parent: sv(other_parents[t.below(other_parents.len())]), launched: sv(&["git", "blame", "src/x.rs"]), content: blame_lines(t), opts: vec![] },
     }
@@ -319,7 +328,7 @@ impl Prop for C20 {
         400
     }
     fn rule(&self) -> String {
-        "cases = scenario x generated input x forced schedules of the real binary (built with the ordering points of src/utils/process.rs): guess scenarios (parent process `git grep`, `rg`, `git blame f.rs`, `git show REV:f.rs`, `git diff --word-diff`, input on stdin) and known scenarios (`delta rg ..`, `delta git grep ..`, `delta git blame ..`, `delta -s|-n git diff --word-diff` with a stub command, under a parent process of another kind). The background thread's units [start] [determined] [locked, stored, done] are merged at generated positions into the main thread's sequence [set:before-lock] [set:locked, set:stored, set:done] [query#1] .. [query#Q] (Q learnt from a trace); per case: the critical section of the background thread placed in front of EVERY main unit and after the last one, both with an early and a late start, plus random position triples; only merges feasible under the mutex and the wait-while-pending rule are generated (a reference model of the protocol decides feasibility). Oracle: under every schedule the process exits 0 within the time limit (no query blocks forever) and stdout is byte-identical to that of the schedule 'background thread first'; for known scenarios it is also identical to the output under a neutral parent (the background guess never shows) and to the output of delta run as the pager of that command with the same options (every query, also the first, sees the launched command); the schedule must have been realised according to the recorded trace, else the run is counted inconclusive. Sensitivity witness per case: the output under a parent of another kind differs (guess scenarios). Non-trivial = known scenario with the background critical section between two queries, or guess scenario with query#1 waiting for the background thread; distinct by hash of (scenario, input, schedule).".to_string()
+        "cases = scenario x generated input x forced schedules of the real binary (built with the ordering points of src/utils/process.rs): guess scenarios (parent process `git grep`, `rg`, `git blame f.rs`, `git show REV:f.rs`, `git diff --word-diff`, input on stdin) and known scenarios (`delta rg ..`, `delta git grep ..`, `delta git blame ..`, `delta -s|-n git diff --word-diff`, `delta git <subcommand delta does not parse>` with a stub command, under a parent process of another kind). The background thread's units [start] [determined] [locked, stored, done] are merged at generated positions into the main thread's sequence [set:before-lock] [set:locked, set:stored, set:done] [query#1] .. [query#Q] (Q learnt from a trace); per case: the critical section of the background thread placed in front of EVERY main unit and after the last one, both with an early and a late start, plus random position triples; only merges feasible under the mutex and the wait-while-pending rule are generated (a reference model of the protocol decides feasibility). Oracle: under every schedule the process exits 0 within the time limit (no query blocks forever) and stdout is byte-identical to that of the schedule 'background thread first'; for known scenarios it is also identical to the output under a neutral parent (the background guess never shows) and to the output of delta run as the pager of that command with the same options (every query, also the first, sees the launched command); the schedule must have been realised according to the recorded trace, else the run is counted inconclusive. Sensitivity witness per case: the output under a parent of another kind differs (guess scenarios). Non-trivial = known scenario with the background critical section between two queries, or guess scenario with query#1 waiting for the background thread; distinct by hash of (scenario, input, schedule).".to_string()
     }
     fn assumptions(&self) -> Vec<String> {
         vec![
@@ -342,6 +351,9 @@ impl Prop for C20 {
         let _ = std::fs::create_dir_all(dir.join("stubs/home"));
         let mut r = Runner { delta: verif_root().join("target/bin/release/delta"), stub_dir: dir.join("stubs"), trace: dir.join("trace.txt"), script: dir.join("script.json"), content_file: dir.join("content.bin"), runs: 0 };
         let known = !sc.launched.is_empty();
+        // (a launched command that delta does not parse is not published: like a guess scenario as
+        // far as the protocol goes, like a known one for the witnesses)
+        let publishes = known && !sc.name.contains("unparsed");
         let detail = |extra: Value| json!({"scenario": sc.name, "parent_process": sc.parent, "delta_args": sc.launched, "content": exec::printable(&sc.content), "observation": extra});
         let fail = |sig: &str, msg: String, extra: Value| Verdict::Fail(Failure::new(format!("C20:{}:{}", sc.name, sig), format!("[{}] {}", sc.name, msg)).with(detail(extra)).traits(vec![format!("scenario:{}", sc.name)]));
         macro_rules! run {
@@ -365,7 +377,7 @@ impl Prop for C20 {
         // main thread's items: the publication of a known command (one critical section with
         // ordering points inside) and the queries (one pre-lock point each)
         let mut items: Vec<Vec<String>> = Vec::new();
-        if known {
+        if publishes {
             items.push(SET.iter().map(|s| s.to_string()).collect());
         }
         for k in 1..=q {
@@ -403,8 +415,8 @@ impl Prop for C20 {
             }
         }
         // 4. the reference model must agree that the answer is schedule-independent
-        let want = if known { Cell::Known } else { Cell::Guess };
-        for (order, reads) in all_walks(known, q.min(4), 3000) {
+        let want = if publishes { Cell::Known } else { Cell::Guess };
+        for (order, reads) in all_walks(publishes, q.min(4), 3000) {
             if reads.iter().any(|r| *r != want) {
                 return Verdict::Fail(Failure::new("INFRASTRUCTURE:model", format!("the reference model itself lets a query read {:?} under {:?}", reads, order)));
             }
@@ -418,7 +430,7 @@ impl Prop for C20 {
         // is let through while the other thread is inside its critical section.
         let mut scheds: Vec<(String, Vec<String>)> = Vec::new();
         // in guess scenarios query#1 cannot return before the background thread has stored
-        let last = if known { n } else { 1 };
+        let last = if publishes { n } else { 1 };
         for i in 0..=last {
             let before: Vec<String> = items[..i].iter().flatten().cloned().collect();
             let after: Vec<String> = items[i..].iter().flatten().cloned().collect();
@@ -440,7 +452,7 @@ impl Prop for C20 {
                 if i < n {
                     let first = items[i][0].clone();
                     // strictly between item i and item i+1
-                    if known || i == 0 {
+                    if publishes || i == 0 {
                         let mut s2 = head.clone();
                         s2.push(format!("@{}", first));
                         s2.extend(bg_sec.iter().cloned());
@@ -448,7 +460,7 @@ impl Prop for C20 {
                         scheds.push((format!("between:{}", i), s2));
                     }
                     // the main thread arrives at the lock while the background thread holds it
-                    if !(known || i == 0) {
+                    if !(publishes || i == 0) {
                         continue;
                     }
                     let mut s3 = head.clone();
@@ -463,7 +475,7 @@ impl Prop for C20 {
                 }
             }
         }
-        if known {
+        if publishes {
             // the background thread arrives at the lock while set_calling_process holds it
             for at in 2..=3 {
                 let mut s4: Vec<String> = vec![BG[0].to_string()];
@@ -479,7 +491,7 @@ impl Prop for C20 {
         // `bg:determined` back until the sequencer gives up on it (after the timeout, here
         // 1.5 s), while the first query waits - a query that stops waiting early would hand out
         // the unfinished answer
-        let slow = !known && t.chance(1, if ctx.tier == Tier::Quick { 6 } else { 2 });
+        let slow = !publishes && t.chance(1, if ctx.tier == Tier::Quick { 6 } else { 2 });
         let slow_sched: Vec<String> = vec!["query#1".to_string(), BG[0].to_string(), "phantom:never".to_string(), BG[1].to_string()];
         // quick tier: a generated subset of the positions (all of them in the thorough tier)
         if ctx.tier == Tier::Quick && scheds.len() > 24 {
